@@ -8,6 +8,7 @@ all protocol-legal offers; messages are opaque tokens).  The results are compare
 specification of the queue kind.  Nothing of pymtl3 is imported, elaborated or simulated.
 """
 import ast
+import copy
 import itertools
 import re
 
@@ -85,7 +86,10 @@ EXPLANATION = (
     "a non-blocking method false for every full buffer, a blocking method stores directly after a `while <full>: yield` "
     "loop, an update block captures only under conditions that (together with what en implies: the rdy this class drives, or "
     "the condition under which this class raises en) imply `empty`; the rdy driven from the buffer equals `empty`; no "
-    "unconditional clear in an update block; every port used on a declared RTL interface exists and every called function is "
+    "unconditional clear in an update block; on the sending side the entry is released iff the handshake completed (val & "
+    "rdy, or the en this class drives; registers in the release condition stand for their next-state expression); on the "
+    "val/rdy receiving side the rdy published in a cycle and the capture condition agree in every order of the rdy block, "
+    "the capture block and the buffer-writing methods that the declared constraints admit; every port used on a declared RTL interface exists and every called function is "
     "defined or imported. "
     "Every rule carries an embedded defective example that must be flagged on every run. "
     "Known finding: BypassQueue2RTL (chain of two 1-entry bypass queues) has enq.rdy low with one of two entries occupied. "
@@ -1968,6 +1972,128 @@ def _buffer_check(r, m, only=None):
                           "message that was stored but not yet taken is dropped", st.lineno)
                 else:
                     r.ok(m, where(f, kind), f"clear {norm(st)} under a condition")
+            # -- B5: on the sending side the entry is released iff the handshake completed (val & rdy, resp. the en this
+            #        class drives); registers in the release condition stand for their next-state expression
+            regs = {}
+            for b in blocks:
+                if [norm(d) for d in b.decorator_list] == ['update_ff']:
+                    for n in b.body:
+                        if isinstance(n, ast.AugAssign) and isinstance(n.op, ast.LShift):
+                            regs[norm(n.target)] = n.value
+            send_ifcs = sorted({norm(n.target)[:-4] for b in blocks for n in walk_no_nested(b)
+                                if isinstance(n, ast.AugAssign) and isinstance(n.op, ast.MatMult) and norm(n.target).endswith('.msg')
+                                and _mentions(n.value, me, buf)})
+
+            class _Unreg(ast.NodeTransformer):
+                def visit_Attribute(self, n):
+                    return self.visit(copy.deepcopy(regs[norm(n)])) if norm(n) in regs else n
+            for f, sn, kind, st in stores(buf, True):
+                if kind != 'block' or not send_ifcs:
+                    continue
+                gl = [(_Unreg().visit(copy.deepcopy(g.test)), g.polarity) for g in guards_of(st) if g.kind in ('if', 'exit')]
+                if not gl:
+                    continue
+                ifc = send_ifcs[0]
+                drives_val = (ifc + '.val') in en_of
+                tnames = [ifc + '.val', ifc + '.rdy'] if drives_val else [ifc + '.en']
+                names = list(tnames)
+                for g, _ in gl:
+                    for a in _buf_atoms(g, me, buf):
+                        if a not in names:
+                            names.append(a)
+                if len(names) > 8:
+                    raise AnalysisError(f"{where(f, kind)}: too many atoms in the release condition of s.{buf}")
+                msg = None
+                for at in _valuations(names):
+                    for entry in FULLS:
+                        r.evaluations += 1
+                        released = all(bool(_buf_eval(g, me, buf, entry, at)) == pol for g, pol in gl)
+                        transfer = all(bool(at[t]) for t in tnames)
+                        if released and not transfer and msg is None:
+                            msg = (f"the entry is released under `{' and '.join(('' if pol else 'not ') + '(' + norm(g) + ')' for g, pol in gl)}`, "
+                                   f"which holds with {', '.join(f'{t}={at[t].v}' for t in tnames)}: the message is dropped although the "
+                                   f"receiver did not accept it (release only on a completed handshake)")
+                        if transfer and not released and msg is None:
+                            msg = (f"with {', '.join(f'{t}={at[t].v}' for t in tnames)} the handshake completes but the entry is kept: "
+                                   f"the message is sent again")
+                cons = f"release of s.{buf} on {ifc}: " + ' and '.join(('' if pol else 'not ') + norm(g) for g, pol in gl)
+                (r.bad(m, where(f, kind), cons, msg, st.lineno) if msg else r.ok(m, where(f, kind), cons))
+            # -- B6: receiving side (val/rdy): the rdy published in a cycle and the capture condition of that cycle agree in
+            #        every order of the rdy block, the capture block and the methods writing the buffer that the declared
+            #        constraints allow: a message is captured only if the published rdy was 1
+            pairs = set()
+            for c in [n for n in walk_no_nested(con) if isinstance(n, ast.Call) and isinstance(n.func, ast.Attribute)
+                      and n.func.attr == 'add_constraints' and norm(n.func.value) == me]:
+                for a in c.args:
+                    if isinstance(a, ast.Compare) and len(a.ops) == 1 and isinstance(a.ops[0], (ast.Lt, ast.Gt)):
+                        try:
+                            x, y = _cl_term(a.left, me, None), _cl_term(a.comparators[0], me, None)
+                        except AnalysisError:
+                            continue
+                        pairs.add((x, y) if isinstance(a.ops[0], ast.Lt) else (y, x))
+            for ifc, rexpr in sorted(rdy_of.items()):
+                if not _mentions(rexpr, me, buf) or (ifc + '.val') in en_of:
+                    continue
+                rblk = [b for b, n in en_of[ifc + '.rdy']][0]
+                caps = [(f, st) for f, sn, kind, st in sts if kind == 'block' and
+                        any(isinstance(n, ast.Attribute) and norm(n) == ifc + '.val' for g in guards_of(st) for n in ast.walk(g.test))]
+                for cblk, cst in caps:
+                    cgl = [(g.test, g.polarity) for g in guards_of(cst) if g.kind in ('if', 'exit')]
+                    writers = []
+                    for f, sn, kind in funcs:
+                        if kind != 'method' or f.name in ('line_trace', '__str__'):
+                            continue
+                        ws = [n for n in walk_no_nested(f) if isinstance(n, ast.Assign) and any(
+                            isinstance(t, ast.Attribute) and t.attr == buf and norm(t.value) == sn for t in n.targets)]
+                        if not ws:
+                            continue
+                        guard = None
+                        for d in f.decorator_list:
+                            if isinstance(d, ast.Call) and norm(d.func) == 'non_blocking' and d.args and isinstance(d.args[0], ast.Lambda):
+                                guard = (d.args[0].args.args[0].arg, d.args[0].body, True)
+                        if guard is None and f.body and isinstance(f.body[0], ast.While):
+                            guard = (sn, f.body[0].test, False)          # blocking: proceeds once the wait condition is false
+                        writers.append((f, guard, _is_none(ws[-1].value)))
+                    items = [('U:' + rblk.name, 'rdy', None), ('U:' + cblk.name, 'cap', None)] + \
+                            [('M:' + f.name, 'meth', (g, clr)) for f, g, clr in writers]
+                    if len(items) > 5:
+                        raise AnalysisError(f"{cname}: too many writers of s.{buf}")
+                    msg, norders = None, 0
+                    for order in itertools.permutations(items):
+                        pos = {it[0]: i for i, it in enumerate(order)}
+                        if any(a in pos and b in pos and pos[a] > pos[b] for a, b in pairs):
+                            continue
+                        norders += 1
+                        for entry0, val, called in itertools.product((None, FULLS[0]), (0, 1), (False, True)):
+                            if True:
+                                at = {ifc + '.val': BV(val, 1)}
+                                entry, published = entry0, None
+                                for key, what, info in order:
+                                    r.evaluations += 1
+                                    if what == 'rdy':
+                                        published = bool(_buf_eval(rexpr, me, buf, entry, at))
+                                    elif what == 'cap':
+                                        names = [a for g, _ in cgl for a in _buf_atoms(g, me, buf)]
+                                        if set(names) - set(at):
+                                            raise AnalysisError(f"{cname}.{cblk.name}: capture condition with atoms {names}")
+                                        if all(bool(_buf_eval(g, me, buf, entry, at)) == pol for g, pol in cgl):
+                                            if published is not True and msg is None:
+                                                msg = (f"schedule {' < '.join(k for k, _, _ in order)}, buffer {'full' if entry0 else 'empty'} at the "
+                                                       f"start, {ifc}.val={val}: the message is captured although the rdy published in this "
+                                                       f"cycle was {published} -- the sender keeps its message and it is delivered twice")
+                                            entry = FULLS[0]
+                                    else:
+                                        g, clr = info
+                                        fires = called           # the method may or may not be called in this cycle
+                                        if fires and g is not None and not _buf_atoms(g[1], g[0], buf):
+                                            v = bool(_buf_eval(g[1], g[0], buf, entry, {}))
+                                            fires = v if g[2] else not v
+                                        if fires:
+                                            entry = None if clr else FULLS[0]
+                    if not norders:
+                        raise AnalysisError(f"{cname}: the declared constraints admit no order of {[i[0] for i in items]}")
+                    cons = f"published {ifc}.rdy vs capture in {cblk.name} over {norders} admissible orders"
+                    (r.bad(m, f"{cname}.construct", cons, msg, cst.lineno) if msg else r.ok(m, f"{cname}.construct", cons))
 
 
 def _adapter_wellformed(r, repo, m, only=None):
@@ -2113,7 +2239,15 @@ def rule_every_cycle_group_runs(repo):
     return out
 
 
-RULES = [rule_fl_blocks_stay_ordered, rule_method_equivalence_keys, rule_every_cycle_group_runs, rule_rdy, rule_count, rule_step, rule_siblings, rule_cl, rule_history, rule_copy, rule_connect, rule_buffer,
+def rule_inputs_seen_by_the_edge(repo):
+    """a multi-entry RTL queue registers an accepted offer only if the tick evaluates the combinational schedule (enq_xfer /
+    deq_xfer from the inputs just written) before the update_ff blocks, under every pass group -- decided by C07
+    (R-tick-order)"""
+    from rules.c07 import rule_tick_order
+    return rule_tick_order(repo)
+
+
+RULES = [rule_inputs_seen_by_the_edge, rule_fl_blocks_stay_ordered, rule_method_equivalence_keys, rule_every_cycle_group_runs, rule_rdy, rule_count, rule_step, rule_siblings, rule_cl, rule_history, rule_copy, rule_connect, rule_buffer,
          rule_openloop_rdy_order]
 THOROUGH_RULES = [rule_wide]
 
@@ -2287,6 +2421,13 @@ MUTANTS = [
        "    s.entry = clone_deepcopy(msg)", 'R-C17-buffer'),
     _m('adapter-fl-recvq-captures-while-full', SFL, "      if (s.entry is None) & s.recv.val:", "      if s.recv.val:", 'R-C17-buffer'),
     _m('adapter-getrtl2givecl-en-while-full', GGI, "      if s.entry is None and s.get.rdy:", "      if s.get.rdy:", 'R-C17-buffer'),
+    # -- round 9: release only on a completed handshake; published rdy vs capture over the admissible orders
+    _m('fl-sendq-sent-ignores-rdy', SFL, "      s.sent <<= s.send.val & s.send.rdy", "      s.sent <<= s.send.val", 'R-C17-buffer'),
+    _m('sqa-sendq-sent-ignores-rdy', SQA, "      s.sent <<= s.send.val & s.send.rdy", "      s.sent <<= s.send.val", 'R-C17-buffer'),
+    _m('sqa-sendq-sent-on-rdy-only', SQA, "      s.sent <<= s.send.val & s.send.rdy", "      s.sent <<= s.send.rdy", 'R-C17-buffer'),
+    _m('fl-recvq-deq-after-rdy', SFL, "M( s.deq )       < U( up_recv_rdy ),", "U( up_recv_rdy ) < M( s.deq ),", 'R-C17-buffer'),
+    _m('sqa-recvq-deq-unconstrained', SQA, "M( s.deq )     < U( up_recv_rdy ), # deq before recv in a cycle -- pipe behavior\n                       M( s.deq.rdy ) < U( up_recv_rdy ),",
+       "M( s.deq.rdy ) < U( up_recv_rdy ),", 'R-C17-buffer'),
     # -- stdlib/queues/cl_queues.py
     _m('cl-pipe-enq-guard-le', CLQ, "lambda s: len( s.queue ) < s.queue.maxlen", "lambda s: len( s.queue ) <= s.queue.maxlen",
        'R-C17-cl', 'first'),
@@ -2369,6 +2510,9 @@ EQUIV = [
         dict(file=CLONE_PY, old="    return deepcopy(x)", new="    return copy.deepcopy(x)", count=1)]),
     _m('clone-deepcopy-helper-local', CLONE_PY, "  except AttributeError:\n    return deepcopy(x)",
        "  except AttributeError:\n    obj = x\n    return deepcopy(obj)"),
+    _m('fl-sendq-sent-operands-swapped', SFL, "      s.sent <<= s.send.val & s.send.rdy", "      s.sent <<= s.send.rdy & s.send.val"),
+    _m('sqa-sendq-clear-compare-form', SQA, "      if s.sent: # constraints reverse this", "      if s.sent == 1: # constraints reverse this"),
+    _m('fl-recvq-constraint-as-gt', SFL, "M( s.deq )       < U( up_recv_rdy ),", "U( up_recv_rdy ) > M( s.deq ),"),
     _m('adapter-copy-via-clone-method', SRI, "s.entry = clone_deepcopy( msg )", "s.entry = msg.clone()", None, 'first'),
     dict(name='adapter-copy-via-deepcopy', edits=[
         dict(file=GGI, old="import greenlet\n", new="import greenlet\nfrom copy import deepcopy\n", count=1),
